@@ -14,6 +14,7 @@ import MajoranaVerif.Model.Mvp3
 import MajoranaVerif.Model.Mvp4
 import MajoranaVerif.Model.Mvp5
 import MajoranaVerif.Model.Mvp60Fast
+import MajoranaVerif.Model.Mvp61
 
 namespace Driver.Run
 
@@ -77,6 +78,25 @@ def m60Suffix (app : Model.Seq.App) (ctx : Model.Context) (spec : Spec.Result) :
     s!" m60p{k}={showHalt r.halt},{cyc},{if same then "same" else "DIFF"},{r.ticks},{hex16 dig}"
   "".intercalate (m60Pars.map one)
 
+/-- which parallelisms of the MVP-6.1 model are evaluated (as `m60Pars`; `VERIF_M61=all|none` overrides) -/
+initialize m61Pars : List Nat ← do
+  let tier ← IO.getEnv "VERIF_TIER"
+  let opt ← IO.getEnv "VERIF_M61"
+  return if tier == some "thorough" || opt == some "all" then [1, 2, 3, 4] else if opt == some "none" then [] else [1, 2]
+
+/-- the cycle-accurate model of MVP-6.1 (`Model.Mvp61`) with eu = wu = 1..4, in the format of `m60Suffix`:
+` m61pK=<halt>,<cycles>,<same|DIFF>,<ticks>,<digest of final registers and memory>` -/
+def m61Suffix (app : Model.Seq.App) (ctx : Model.Context) (spec : Spec.Result) : String :=
+  let fuel := 32 * Gen.Latency.MemoryAccess.toNat * (spec.steps + 64)
+  let one (k : Nat) : String :=
+    let r := Model.Mvp61.run app ctx k k fuel
+    let fr := (List.range 32).map fun j => GoInt.GoMap.get1 r.final.ctx.Registers j
+    let same := fr == spec.final.regs.toList && r.final.ctx.Memory == spec.final.mem.toList
+    let cyc := match r.halt with | some .err => 0 | _ => r.final.cycles
+    let dig := fnvStr (",".intercalate (fr.map showI32) ++ ";" ++ hex16 (fnv64 r.final.ctx.Memory.toArray))
+    s!" m61p{k}={showHalt r.halt},{cyc},{if same then "same" else "DIFF"},{r.ticks},{hex16 dig}"
+  "".intercalate (m61Pars.map one)
+
 /-- the cycle-accurate models of MVP-1 and MVP-2 on the same case: how the run ends, the cycle count,
 and whether the final registers and memory equal the specification's (`same`/`DIFF`) -/
 def seqModels (progBytes : List UInt8) (regs : Array (BitVec 32)) (mem : Array (BitVec 8)) (fuel : Nat)
@@ -103,7 +123,7 @@ def seqModels (progBytes : List UInt8) (regs : Array (BitVec 32)) (mem : Array (
       let same := fr == spec.final.regs.toList && r.final.ctx.Memory == spec.final.mem.toList
       let cyc := match r.halt with | some .err => 0 | _ => r.final.cycles
       s!"{showHalt r.halt},{cyc},{r.final.executed},{if same then "same" else "DIFF"}"
-    s!"m1={one (Model.Seq.runMvp1 app ⟨ctx, 0⟩ fuel)} m2={one (Model.Seq.runMvp2 app ⟨ctx, 0⟩ fuel)} m3={one (Model.Mvp3.runMvp3 app ⟨ctx, 0⟩ fuel).toSeq} h3={if Model.Mvp3.wfAccesses app ⟨ctx, 0⟩ fuel then 1 else 0} m4={one4 (Model.Mvp4.run app ctx (32 * Gen.Latency.MemoryAccess.toNat * (spec.steps + 64)))} m5={one5 (Model.Mvp5.run app ctx (32 * Gen.Latency.MemoryAccess.toNat * (spec.steps + 64)))}{m60Suffix app ctx spec}"
+    s!"m1={one (Model.Seq.runMvp1 app ⟨ctx, 0⟩ fuel)} m2={one (Model.Seq.runMvp2 app ⟨ctx, 0⟩ fuel)} m3={one (Model.Mvp3.runMvp3 app ⟨ctx, 0⟩ fuel).toSeq} h3={if Model.Mvp3.wfAccesses app ⟨ctx, 0⟩ fuel then 1 else 0} m4={one4 (Model.Mvp4.run app ctx (32 * Gen.Latency.MemoryAccess.toNat * (spec.steps + 64)))} m5={one5 (Model.Mvp5.run app ctx (32 * Gen.Latency.MemoryAccess.toNat * (spec.steps + 64)))}{m60Suffix app ctx spec}{m61Suffix app ctx spec}"
 
 /-- `run id ; family=.. fuel=N memsize=M ; regs=r:v,.. ; mem=<hex> ; prog=<hex>` -/
 def run (line : String) : String :=
